@@ -26,6 +26,7 @@ type req struct {
 	E2E       int    `json:"e2e"`
 	WantV6    bool   `json:"want_v6"`
 	Skip      bool   `json:"skip_private"`
+	EchoBase  uint32 `json:"echo_base"` // position of the ICMP echo-id allocator before the request (runner built with -tags verif only)
 }
 type hop struct {
 	TTL   int    `json:"ttl"`
@@ -49,6 +50,9 @@ func main() {
 		os.Exit(2)
 	}
 	tr := traceroute.NewTraceroute()
+	if r.EchoBase > 0 {
+		setEchoBase(r.EchoBase)
+	}
 	// "twice": the same request is served twice by this process; between the two the lab changes something (the driver waits for
 	// a line on stdin). Only the second answer is reported: what the process did before must not matter.
 	if len(os.Args) > 2 && os.Args[2] == "twice" {
